@@ -37,6 +37,7 @@ class TaskHandler:
         self._pending = {}
         self._job_id = 0
         self._lock = threading.Lock()
+        self._accept_lock = threading.Lock()
         self._open = True
 
     def _next_id(self):
@@ -57,11 +58,14 @@ class TaskHandler:
         :param args: the args to pass to the function
         :return: a future that can be listened to for completion
         """
-        self.__check_open()
-        next_id = self._next_id()
-        # there is an at exit in threading that prevents submitting tasks after shutdown, but no api to check this
-        future = self._pool.submit(task, *args)
-        self._pending[next_id] = future
+        # accepting a task and closing exclude each other: a task is either accepted, and then flush waits for it,
+        # or it is refused - never accepted behind the back of a flush that has already looked at the pending tasks
+        with self._accept_lock:
+            self.__check_open()
+            next_id = self._next_id()
+            # there is an at exit in threading that prevents submitting tasks after shutdown, but no api to check this
+            future = self._pool.submit(task, *args)
+            self._pending[next_id] = future
 
         # cannot use 'del' in lambda: https://stackoverflow.com/a/41953232/5151254
         def callback(_future: Future):
@@ -75,9 +79,11 @@ class TaskHandler:
 
     def flush(self):
         """Await completion of all pending tasks."""
-        self._open = False
-        # wait on a copy of the futures: completed tasks remove themselves from the pending map while we iterate
-        for future in list(self._pending.values()):
+        with self._accept_lock:
+            self._open = False
+            # wait on a copy of the futures: completed tasks remove themselves from the pending map while we iterate
+            pending = list(self._pending.values())
+        for future in pending:
             try:
                 # use exception() not result(): a failed task has already been logged, it must not fail the flush
                 future.exception(10)
